@@ -26,6 +26,16 @@ impl TearableAtomicTime {
 impl TearableAtomic for TearableAtomicTime {
     type Value = MonotonicTime;
 
+    #[cfg(feature = "verif-hooks")]
+    fn tearable_load(&self) -> MonotonicTime {
+        // same as below, with a delay point between the two field loads
+        let secs = self.secs.load(Ordering::Relaxed);
+        crate::verif_hooks::delay(crate::verif_hooks::site::T3);
+        let nanos = self.nanos.load(Ordering::Relaxed);
+        MonotonicTime::new(secs, nanos).unwrap()
+    }
+
+    #[cfg(not(feature = "verif-hooks"))]
     fn tearable_load(&self) -> MonotonicTime {
         // Load each field separately. This can never create invalid values of a
         // `MonotonicTime`, even if the load is torn.
